@@ -112,10 +112,11 @@ type Eval struct {
 	usedConstGlobals bool
 	prov     map[string]string // interface term loaded from fidRef.file -> the fidRef
 	provGhost map[string]bool  // provenance that is a ghost parameter (may be 0 = none)
+	mapFrom   map[string]string // map term -> field component it was loaded from
 }
 
 func NewEval(p *Program) *Eval {
-	e := &Eval{p: p, siteCnt: map[string]int{}, muTags: map[string]int{}, prov: map[string]string{}, provGhost: map[string]bool{}}
+	e := &Eval{p: p, siteCnt: map[string]int{}, muTags: map[string]int{}, prov: map[string]string{}, provGhost: map[string]bool{}, mapFrom: map[string]string{}}
 	e.c = NewCtx(p)
 	return e
 }
@@ -327,6 +328,9 @@ func (e *Eval) closureAxiom(comp, term, top string) string {
 	}
 	if kind == "field" {
 		return fmt.Sprintf("(forall ((x Int)) (! (<= (select %s x) %s) :pattern ((select %s x))))", term, top, term)
+	}
+	if kind == "mapkey" {
+		return fmt.Sprintf("(forall ((m Int) (k Int)) (! (=> (select (select %s m) k) (<= k %s)) :pattern ((select (select %s m) k))))", term, top, term)
 	}
 	ks := strings.TrimPrefix(kind, "map:")
 	return fmt.Sprintf("(forall ((m Int) (k %s)) (! (<= (select (select %s m) k) %s) :pattern ((select (select %s m) k))))", ks, term, top, term)
